@@ -41,3 +41,119 @@ def register(ex):
     ex.probe("pctspCheckPrizeCmp", "Cmp", ".ge",
              "pctsp/env.py:check_solution_validity  `p.sum(-1) >= 1 - 1e-5`",
              ex.cmp_probe(PC, "PCTSPEnv.check_solution_validity", "p.sum(-1)", "1 - 1e-05"))
+
+    # ---- constants and index expressions -----------------------------------------------------------------
+    from fractions import Fraction
+
+    def frac(v):
+        fr = Fraction(str(v))
+        return f"({fr.numerator}, {fr.denominator})"
+
+    def func(rel, qual):
+        tree = ex.parse(rel)
+        return ex.find_function(tree, qual) if tree else None
+
+    def special_case(rel, qual, what):
+        """`if actions.size(-1) == 1:` at the top of `_get_reward`: comparison operator / constant"""
+        def run():
+            fn = func(rel, qual)
+            if fn is None:
+                return None
+            for n in ast.walk(fn):
+                if (isinstance(n, ast.If) and isinstance(n.test, ast.Compare) and len(n.test.ops) == 1
+                        and ex.norm(n.test.left) == "actions.size(-1)" and isinstance(n.test.comparators[0], ast.Constant)
+                        and isinstance(n.test.comparators[0].value, int) and type(n.test.ops[0]) in ex.CMP):
+                    return "." + ex.CMP[type(n.test.ops[0])] if what == "cmp" else str(n.test.comparators[0].value)
+            return None
+        return run
+
+    def compare_const(rel, qual, left):
+        """numeric literal `c` of the comparison `left <op> c`"""
+        L = left.replace(" ", "").replace('"', "'")
+        def run():
+            fn = func(rel, qual)
+            if fn is None:
+                return None
+            hits = [n for n in ast.walk(fn) if isinstance(n, ast.Compare) and len(n.ops) == 1 and ex.norm(n.left) == L
+                    and isinstance(n.comparators[0], ast.Constant) and isinstance(n.comparators[0].value, (int, float))]
+            return frac(hits[0].comparators[0].value) if len(hits) == 1 else None
+        return run
+
+    def compare_binop_consts(rel, qual, left, which):
+        """`left <op> a - b` (or `x + b`): the literal a (which=0) or b (which=1, signed by the operator)"""
+        L = left.replace(" ", "").replace('"', "'")
+        def run():
+            fn = func(rel, qual)
+            if fn is None:
+                return None
+            for n in ast.walk(fn):
+                if isinstance(n, ast.Compare) and len(n.ops) == 1 and ex.norm(n.left) == L and isinstance(n.comparators[0], ast.BinOp):
+                    b = n.comparators[0]
+                    if not isinstance(b.op, (ast.Add, ast.Sub)) or not isinstance(b.right, ast.Constant):
+                        return None
+                    if which == 0:
+                        return frac(b.left.value) if isinstance(b.left, ast.Constant) else None
+                    fr = Fraction(str(b.right.value)) * (-1 if isinstance(b.op, ast.Sub) else 1)
+                    return f"({fr.numerator}, {fr.denominator})"
+            return None
+        return run
+
+    def reset_margin():
+        """`td["max_length"][..., None] - <dist>.norm(...) - 1e-6` in `_reset`: the signed constant added to
+        `max_length − dist` (the distance term must be subtracted, otherwise pattern-miss)"""
+        fn = func(OP, "OPEnv._reset")
+        if fn is None:
+            return None
+        for n in ast.walk(fn):
+            if (isinstance(n, ast.BinOp) and isinstance(n.op, (ast.Add, ast.Sub)) and isinstance(n.right, ast.Constant)
+                    and isinstance(n.left, ast.BinOp) and isinstance(n.left.op, ast.Sub)
+                    and ex.norm(n.left.left) == "td['max_length'][...,None]" and "norm(" in ex.norm(n.left.right)):
+                fr = Fraction(str(n.right.value)) * (-1 if isinstance(n.op, ast.Sub) else 1)
+                return f"({fr.numerator}, {fr.denominator})"
+        return None
+
+    def penalty_slice():
+        """`td["penalty"][..., lo:hi].sum(-1)` in `_get_reward`: (lo, number of trailing entries cut off)"""
+        fn = func(PC, "PCTSPEnv._get_reward")
+        if fn is None:
+            return None
+        hits = []
+        for n in ast.walk(fn):
+            if (isinstance(n, ast.Subscript) and ex.norm(n.value) == "td['penalty']" and isinstance(n.slice, ast.Tuple)
+                    and len(n.slice.elts) == 2 and isinstance(n.slice.elts[1], ast.Slice)):
+                sl = n.slice.elts[1]
+                lo = 0 if sl.lower is None else (sl.lower.value if isinstance(sl.lower, ast.Constant) else None)
+                if sl.upper is None:
+                    cut = 0
+                elif isinstance(sl.upper, ast.UnaryOp) and isinstance(sl.upper.op, ast.USub) and isinstance(sl.upper.operand, ast.Constant):
+                    cut = sl.upper.operand.value
+                else:
+                    cut = None
+                if isinstance(lo, int) and lo >= 0 and isinstance(cut, int) and sl.step is None:
+                    hits.append((lo, cut))
+        return f"({hits[0][0]}, {hits[0][1]})" if len(hits) == 1 else None
+
+    ex.probe("opRewardSpecialCmp", "Cmp", ".eq", "op/env.py:_get_reward  `if actions.size(-1) == 1:` (operator)",
+             special_case(OP, "OPEnv._get_reward", "cmp"))
+    ex.probe("opRewardSpecialWidth", "Nat", "1", "op/env.py:_get_reward  `if actions.size(-1) == 1:` (constant)",
+             special_case(OP, "OPEnv._get_reward", "const"))
+    ex.probe("opResetMargin", "Int × Int", "(-1, 1000000)",
+             "op/env.py:_reset  `max_length[..., None] - dist_to_depot - 1e-6` (signed constant, num/den)", reset_margin)
+    ex.probe("opCheckTol", "Int × Int", "(1, 100000)",
+             "op/env.py:check_solution_validity  `length[..., None] <= max_length + 1e-5` (tolerance, num/den)",
+             compare_binop_consts(OP, "OPEnv.check_solution_validity", "length[..., None]", 1))
+    ex.probe("pctspRewardSpecialCmp", "Cmp", ".eq", "pctsp/env.py:_get_reward  `if actions.size(-1) == 1:` (operator)",
+             special_case(PC, "PCTSPEnv._get_reward", "cmp"))
+    ex.probe("pctspRewardSpecialWidth", "Nat", "1", "pctsp/env.py:_get_reward  `if actions.size(-1) == 1:` (constant)",
+             special_case(PC, "PCTSPEnv._get_reward", "const"))
+    ex.probe("pctspMaskPrizeConst", "Int × Int", "(1, 1)",
+             "pctsp/env.py:get_action_mask  `cur_total_prize < 1.0` (constant, num/den)",
+             compare_const(PC, "PCTSPEnv.get_action_mask", "td['cur_total_prize']"))
+    ex.probe("pctspPenaltySlice", "Nat × Nat", "(1, 0)",
+             "pctsp/env.py:_get_reward  `td['penalty'][..., 1:].sum(-1)` (first index, trailing entries cut off)", penalty_slice)
+    ex.probe("pctspCheckPrizeBase", "Int × Int", "(1, 1)",
+             "pctsp/env.py:check_solution_validity  `p.sum(-1) >= 1 - 1e-5` (required prize, num/den)",
+             compare_binop_consts(PC, "PCTSPEnv.check_solution_validity", "p.sum(-1)", 0))
+    ex.probe("pctspCheckTol", "Int × Int", "(-1, 100000)",
+             "pctsp/env.py:check_solution_validity  `p.sum(-1) >= 1 - 1e-5` (signed tolerance, num/den)",
+             compare_binop_consts(PC, "PCTSPEnv.check_solution_validity", "p.sum(-1)", 1))
